@@ -41,8 +41,24 @@ func (o *c11obs) Observe(ev *PEvent, ps *PState) (string, string) {
 		return "", "" // C01/C03 decide this
 	}
 	got := blockCost(ev.Blk)
-	want := ref.OptimalCost(ps.Fed, int(ev.PreOff), int(start), int(end),
-		o.eff.MinMatchLen, o.eff.MaxMatchLen, ps.WindowSize, lz.XZCost, 9)
+	var want uint64
+	if ps.WindowSize > 400 && o.eff.MinMatchLen <= 8 {
+		// large windows (cases with few repeats): sources through an index
+		want = ref.OptimalCostIndexed(ps.Fed, int(ev.PreOff), int(start), int(end),
+			o.eff.MinMatchLen, o.eff.MaxMatchLen, ps.WindowSize, lz.XZCost, 9)
+		o.st.Inc("blocks_checked_with_windows_above_400")
+		walkSeqs(ev, func(i int, s lz.Seq, pos int64) {
+			if s.Offset > 512 {
+				o.st.Inc("optimal_matches_with_offsets_above_512")
+			}
+			if s.Offset > 131072 {
+				o.st.Inc("optimal_matches_with_offsets_above_128Ki")
+			}
+		})
+	} else {
+		want = ref.OptimalCost(ps.Fed, int(ev.PreOff), int(start), int(end),
+			o.eff.MinMatchLen, o.eff.MaxMatchLen, ps.WindowSize, lz.XZCost, 9)
+	}
 	o.blocks++
 	o.st.Inc("blocks_checked_against_optimum")
 	if ev.PreOff > 0 {
@@ -85,8 +101,8 @@ func init() {
 		base: base{id: "C11", level: "exploration",
 			rule:        "OSAP histories (MinMatchLen 2..8, MaxMatchLen from MinMatchLen to 1000, all window/buffer/block geometries up to 333 bytes, multi-fill incl. Shrink, Parse(nil), NoTrailingLiterals blocks in between and blocks that reuse computed edges) on small alphabets, periodic and LZ-synthetic strings; the cost of every flags-0 block is compared with an independent O(n*W*L) dynamic program over all admissible sources (inside the still buffered data and the window) and lengths; a block cheaper than the optimum is re-validated for admissibility; non-trivial iff at least one checked block contains a match; distinct = distinct concrete case",
 			assumptions: []string{"cost function XZCost with 9 bits per literal as stated by the property", "admissible sources are the bytes at absolute positions >= sum of Shrink results"},
-			mandatory:   []string{"blocks_checked_against_optimum", "blocks_checked_after_shrink", "optimal_blocks_with_matches", "shrink_discarding"}},
-		types: []string{"OSAP"}, quickN: 12000, thorMul: 40, corpusN: 1500, large: false,
+			mandatory:   []string{"blocks_checked_against_optimum", "blocks_checked_after_shrink", "optimal_blocks_with_matches", "shrink_discarding", "optimal_matches_with_offsets_above_512", "optimal_matches_with_offsets_above_128Ki"}},
+		types: []string{"OSAP"}, quickN: 12000, thorMul: 40, corpusN: 1500, large: false, far: true,
 		weights: HWeights{Write: 18, ReadFrom: 6, Parse: 40, ParseNTL: 6, ParseNil: 4, Shrink: 12, Reset: 1, ResetData: 2, WParse: 6},
 		tweak: func(r *rand.Rand, pc *PCase, kind string) {
 			// many alternative parses: small alphabets and repeats
